@@ -80,9 +80,10 @@ def guarded(fn, secs=CALL_TIMEOUT):
 class NumpyDraws:
     """records (and in mode 'adv' supplies) the draws of np.random.randint / np.random.rand"""
 
-    def __init__(self, mode, seed, script=None):
+    def __init__(self, mode, seed, script=None, streak=0):
         self.mode, self.seed, self.log = mode, seed, []
         self.script, self.pos = list(script or []), 0
+        self.streak = streak   # adv mode: the first `streak` index pairs are forced to be two different positions
 
     def next_scripted(self, nopts):
         if self.pos >= len(self.script):
@@ -111,7 +112,13 @@ class NumpyDraws:
                     and isinstance(a[1], int) and a[1] > 0):
                 m = a[1]
                 u = r.random()
-                if last[0] is not None and u < p_again and max(last[0]) < m:
+                if self.streak > 0 and m > 1:
+                    # a long run of distinct positions: with all hyperedge sizes different and detailed=True the
+                    # proposal loop has to scan through the whole run before it finds an admissible pair
+                    self.streak -= 1
+                    i = r.randrange(m)
+                    j = (i + 1 + r.randrange(m - 1)) % m
+                elif last[0] is not None and u < p_again and max(last[0]) < m:
                     i, j = last[0] if r.random() < 0.5 else last[0][::-1]
                 elif u < p_again + p_same:
                     i = j = r.randrange(m)
@@ -395,7 +402,7 @@ def check_undirected(ctx, drv, case):
     rank = {x: i for i, x in enumerate(sorted(set(labels)))}
     size = params.get("size", params["order"] + 1 if "order" in params else None)
     try:
-        with NumpyDraws(mode, seed, case.get("script")) as rec:
+        with NumpyDraws(mode, seed, case.get("script"), case.get("streak", 0)) as rec:
             status, out = guarded(lambda: configuration_model(h, **params))
     except _NeedMore as more:
         return more.nopts
@@ -598,6 +605,17 @@ def run(ctx):
             labels, edges, params = gen_small(rng)
             explore_undirected(ctx, drv, {"kind": "cm", "labels": labels, "edges": edges, "weights": None,
                                           "isolated": [], "params": params}, ctx.scale(1500, 6000), 9)
+        if it % 97 == 5:
+            # very size-heterogeneous input (all sizes different), detailed, with a long streak of inadmissible pairs
+            k = rng.randint(3, 6)
+            labels = gen_labels(rng, k + 1)
+            edges = [tuple(sorted(rng.sample(labels, sz))) for sz in range(1, k + 1)]
+            rng.shuffle(edges)
+            case = {"kind": "cm", "labels": labels, "edges": edges, "weights": None, "isolated": [],
+                    "params": {"n_steps": rng.choice([1, 3]), "label": rng.choice(["edge", "stub"]), "detailed": True},
+                    "mode": "adv", "seed": rng.randrange(2 ** 31), "streak": rng.choice([55, 130, 300])}
+            ctx.count("heterogeneous_streak_cases")
+            check_undirected(ctx, drv, case)
         if it % 4 != 3:
             labels, edges, weights, iso = gen_undirected(rng)
             params = gen_params(rng, edges)
